@@ -5,7 +5,7 @@ COMPONENTS_SIM = {
               'guest code (scripted by the plan)', 'fault box (allocator / create / grant / lookup failures)'],
 }
 
-WORLDS = ['apptoken', 'mem', 'callback', 'invoke', 'toctou']
+WORLDS = ['apptoken', 'mem', 'callback', 'invoke', 'toctou', 'bulk']
 
 PROPS = {
     'C15': dict(
@@ -124,4 +124,26 @@ PROPS.update({
                              'copy_and_verify_range on long* is excluded (host-width reads at guest stride: a C07 matter, not claimed)',
                              'provenance oracle: a delivered byte must equal the byte some version of a candidate source location held between call entry and verifier entry',
                              'the canary page behind the region ends in a NUL so that a runaway strlen stops inside mapped memory']),
+})
+
+BULK_RULE = ('one run = 2-24 bulk operations (memset, memcpy from application memory / from the same or another live sandbox, memcmp, copy_and_verify_range over 5 element types, '
+             'copy_and_verify_string with and without terminator, copy_and_verify_buffer_address, unverified_safe_pointer_because, copy_memory_or_grant_access, '
+             'copy_memory_or_deny_access) on two live sim sandboxes with start in {null, first/last byte, last 16 bytes, interior} and extent in {0, 1, fits exactly, fits+-1, '
+             'region size(+1), 2^32-1, 2^32, 2^61+1, 2^62+2, 2^64-1, random} given as size_t / unsigned / int / tainted operands, application sources inside a red-zoned arena '
+             'or straddling from the canary page into the region; faults: grant/deny refused, sandbox allocator null or straddling, host malloc null; the footprint is a byte-wise '
+             'diff of both regions, the canary pages around them and the application arena, and in 1/6 of the runs the trap-MMU read/write set of the target region; '
+             'expected outcome (must proceed / must abort / either) from the simulator\'s own region table; non-trivial = fault fired or probe hit; distinct = event-log hashes')
+BULK_WORLD = dict(world='bulk', variants=['plain', 'asan'], quick=dict(count=96000, time_limit=90, variant_share={'plain': 0.8, 'asan': 0.2}),
+                  thorough=dict(count=4000000, time_limit=900, variant_share={'plain': 0.8, 'asan': 0.2}))
+PROPS.update({
+    'C10': dict(level='exploration', worlds=[BULK_WORLD, dict(TOCTOU_WORLD, quick=dict(TOCTOU_WORLD['quick'], count=4000))], rule=BULK_RULE,
+                components=dict(real_code=COMPONENTS_SIM['real_code'],
+                                stubs=COMPONENTS_SIM['stubs'] + ['trap-MMU read/write set', 'host malloc wrapper (-Wl,--wrap=malloc)', 'AddressSanitizer build for red-zone hits']),
+                expect_probes=['source_in_other_live_sandbox', 'application_source_adjacent_to_sandbox', 'unterminated_string_at_end_of_region',
+                               'read_set_observed_with_trap_mmu', 'F3_sbx_malloc_null', 'F4_sbx_malloc_straddle', 'F5_host_malloc_null', 'F8_grant_refused', 'F8_deny_refused'],
+                assumptions=['empty requests (extent 0): either outcome accepted, nothing may be touched',
+                             'mask-flavoured backend: an application-side range that crosses a region-size-aligned block may be refused (backend artefact), accepted either way',
+                             'null start of copy_and_verify_range/_string is handed to the verifier as null (documented behaviour): accepted, nothing may be touched',
+                             'element types whose guest size differs from the host size (long) are not generated: the range given is ambiguous for them',
+                             'libc strlen may scan up to 512 bytes past the terminator inside the region (aligned vector blocks): tolerated in the read-set check']),
 })
